@@ -41,6 +41,16 @@ def d_ann(x: Any) -> Optional[str]:
     return 'dict[%s, %s]' % (txt(a[1]), txt(a[2]))
 
 
+def past_text(a: Any) -> str:
+    if a[0] == 0:
+        return txt(a[1])
+    if a[0] == 1:
+        return ', '.join(past_text(x) for x in a[1:])
+    if a[0] == 2:
+        return '...'
+    return '%s[%s]' % (past_text(a[1]), past_text(a[2]))
+
+
 def clean(d: Optional[str]) -> Optional[str]:
     return None if d is None else inspect.cleandoc(d)
 
@@ -499,7 +509,7 @@ class Check(PropertyCheck):
     props_module = 'Props.C03'
     models = {'builder': 'XBuilder.v'}
     needs_gen = True
-    gen_modules = ['gen_c03']
+    gen_modules = ['gen_c03', 'gen_c03_code']
     rule = ('generated MiniPy packages (module/class bodies with def/async def/class/assignments/annotated and augmented '
             'assignments/string statements/if/try/with/for/while/imports, decorators, nested classes, methods assigning self.x) '
             'printed to real source, built by pydoctor and imported by CPython; plus EVERY sequence of <= N statement templates '
@@ -507,6 +517,10 @@ class Check(PropertyCheck):
             'function AND contains a rebinding, a compound statement or a decorator; distinct by source text')
     trusted_base = [
         'Coq 8.16.1 kernel; vm_compute for Examples/_refuted witnesses and table lemmas; no native_compute; no axioms',
+        'translator harness/gen/gen_c03_code.py (fail-closed): the bodies of astutils.infer_type/_annotation_for_value/_annotation_for_elements, '
+        'model.is_exception and ModuleVistor._handleOldSchoolMethodDecoration -> Gen/BuilderCode.v in the language of Model/BuilderIR.v; its '
+        'primitives (ast.literal_eval, ast.Name/Tuple/Constant/Subscript constructors, set of str, Class.mro(True, False), contents.get, '
+        'isinstance on the inspected trees, tuple membership by ==) are stated assumptions',
         'translator harness/gen/gen_c03.py (fail-closed): _STD_LIB_EXCEPTIONS, MODULE_VARIABLES_META_PARSERS, _CONTROL_FLOW_BLOCKS, '
         'the attribute get_children iterates, the names _handleOldSchoolMethodDecoration accepts',
         'extraction ExtrOcamlBasic only + coq/ocaml/driver.ml; harness/c03*.py, harness/impl/c03_*.py (pretty-printer, adapters)',
@@ -536,6 +550,11 @@ class Check(PropertyCheck):
                  'with witnesses; three repaired defects kept as _old_refuted/_fixed. Tie: doc_walk vs the real builder on every sequence of <= 2 (quick) / '
                  '3 (thorough) statement templates and on random multi-module packages (imports resolved through the model of the imported module); '
                  'oracle = pydoctor build vs CPython import of the same packages, variable docstrings against the generator ground truth.'),
+        'code_tie': ('The bodies of infer_type, _annotation_for_value, _annotation_for_elements, is_exception and '
+                     '_handleOldSchoolMethodDecoration are translated from the current source on every run (harness/gen/gen_c03_code.py -> '
+                     'Gen/BuilderCode.v); C03_code_{annotation_for_value,annotation_for_elements,infer_type,is_exception,oldschool}_is_model prove, '
+                     'for all inputs, that their interpretation (Model/BuilderIR.v) is the hand-written model; C03_code_infer_type_sound restates '
+                     'the property on the translated code; the interpreted code is a third leg of the infer_type correspondence.'),
         'note': ('Variable docstrings are compared with the generator ground truth (string immediately after the assignment in the same '
                  'suite; after def/class/string: nobody); positions after pass/compound statements/tuple unpacking are left unjudged. '
                  'Partial: bindings in else/except/finally suites and untaken ifs, aliases `x = y`, annotations without value, rebinding a '
@@ -778,9 +797,16 @@ class Check(PropertyCheck):
         srcs = [mp.pp_value(v) for v in vals]
         impl = lib.run_impl_worker('c03_infer.py', srcs, seed=self.seed)
         res = self.model('builder', [enc([2, v]) for v in vals])
+        code = self.model('builder', [enc([3, v]) for v in vals])      # the translated source of _annotation_for_value, interpreted
         self.evaluations += len(vals)
-        for v, s, (ann, ty), r in zip(vals, srcs, impl, res):
+        for v, s, (ann, ty), r, cr in zip(vals, srcs, impl, res, code):
             r = dec(r)
+            cr = dec(cr)
+            c_ann = None if cr == [0] else (past_text(cr[1]) if cr and cr[0] == 1 else '<interpreter error>')
+            if c_ann != ann and len(out) < 40:
+                out.append(Violation('correspondence', 'the interpreted translation of astutils._annotation_for_value (Gen/BuilderCode.v) and '
+                                     'astutils.infer_type disagree on %s' % s, case={'value': v}, expected=c_ann, observed=ann))
+            self.count('code_leg_values')
             m_ann = d_ann(r[0])
             m_ty = [txt(r[1][0]), sorted({txt(x) for x in r[1][1]}), sorted({txt(x) for x in r[1][2]})]
             if m_ty != ty:
